@@ -1184,6 +1184,116 @@ func (r *c08Run) stuckForward(minSilence time.Duration) string {
 	return ""
 }
 
+// stuckResponse is the twin of stuckForward for the way back (oracle G3,
+// added after seeded change C08d was missed): Bob's circuit is fully open,
+// the downstream peer's update_fulfill_htlc for the outgoing HTLC reached Bob
+// on a live connection (tap, not dropped), the incoming HTLC is still active,
+// the incoming link is up, resumed and owes no commitment, and the response
+// packet is not in the incoming link's mailbox. lnd keeps a response in that
+// mailbox until the commitment that removes the incoming HTLC has been signed
+// and the circuit deleted (ackDownStreamPackets), and re-delivers it to every
+// new link object (ResetPackets); an open circuit whose response is in no
+// mailbox has lost it for the lifetime of the switch: the forwarder paid
+// downstream and never claims upstream. Like G this is a structural verdict
+// (nothing in the node will touch the HTLC again), not a timeout.
+func (r *c08Run) stuckResponse(minSilence time.Duration) string {
+	_, since := r.tap.snapshot()
+	if since < minSilence {
+		return ""
+	}
+	cm, ok := r.n.bobServer.htlcSwitch.circuits.(*circuitMap)
+	if !ok {
+		return ""
+	}
+	type full struct {
+		in, out CircuitKey
+		hash    [32]byte
+	}
+	var fulls []full
+	cm.mtx.RLock()
+	for out, c := range cm.opened {
+		if c.Incoming.ChanID == hop.Source {
+			continue
+		}
+		fulls = append(fulls, full{c.Incoming, out, c.PaymentHash})
+	}
+	cm.mtx.RUnlock()
+	sort.Slice(fulls, func(i, j int) bool {
+		if fulls[i].in.ChanID != fulls[j].in.ChanID {
+			return fulls[i].in.ChanID.ToUint64() <
+				fulls[j].in.ChanID.ToUint64()
+		}
+
+		return fulls[i].in.HtlcID < fulls[j].in.HtlcID
+	})
+	if len(fulls) == 0 {
+		return ""
+	}
+	events := r.tap.events()
+	for _, f := range fulls {
+		name, link := "bob first", r.n.firstBobChannelLink
+		other, otherName := r.n.secondBobChannelLink, "bob second"
+		edgeOut := c08CtoB
+		if f.in.ChanID == r.n.secondBobChannelLink.ShortChanID() {
+			name, link = "bob second", r.n.secondBobChannelLink
+			other, otherName = r.n.firstBobChannelLink, "bob first"
+			edgeOut = c08AtoB
+		}
+		if f.out.ChanID != other.ShortChanID() {
+			continue
+		}
+		r.mu.Lock()
+		resumed := r.resumed[name] && r.resumed[otherName]
+		r.mu.Unlock()
+		if !resumed || link.channel.OweCommitment() ||
+			!link.EligibleToForward() {
+
+			continue
+		}
+		active := false
+		for _, htlc := range link.channel.ActiveHtlcs() {
+			if htlc.Incoming && htlc.HtlcIndex == f.in.HtlcID {
+				active = true
+			}
+		}
+		if !active {
+			continue
+		}
+		settled := false
+		for _, e := range events {
+			if e.edge == edgeOut && e.kind == c08Fulfill &&
+				e.id == f.out.HtlcID && !e.dropped {
+
+				settled = true
+			}
+		}
+		if !settled {
+			continue
+		}
+		mb, ok := link.mailBox.(*memoryMailBox)
+		if !ok {
+			continue
+		}
+		mb.pktMtx.Lock()
+		_, queued := mb.repIndex[f.in]
+		mb.pktMtx.Unlock()
+		if queued {
+			continue
+		}
+
+		return fmt.Sprintf("incoming HTLC %v (%x) at bob is left "+
+			"dangling: the outgoing HTLC %v was settled by the "+
+			"downstream peer, the circuit is still open, the incoming "+
+			"HTLC is still active, but the settle is in no mailbox "+
+			"(given up before a commitment covering it was signed); "+
+			"nothing is pending and the wire has been silent for %v: "+
+			"the forwarder paid downstream and does not claim upstream",
+			f.in, f.hash[:4], f.out, since.Round(time.Second))
+	}
+
+	return ""
+}
+
 func (r *c08Run) restore() ([4]*lnwallet.LightningChannel, error) {
 	a, b, c, d, err := r.cl.restoreAll()
 
@@ -1303,6 +1413,10 @@ func (r *c08Run) run() []string {
 			r.stuck = s
 			return []string{s}
 		}
+		if s := r.stuckResponse(r.stuckIdle); s != "" {
+			r.stuck = s
+			return []string{s}
+		}
 		// Still not quiescent although nudged three times and idle: a
 		// forward whose batch was cut short by a link flap is only
 		// picked up again by a restart (see notes, liveness). One
@@ -1310,7 +1424,7 @@ func (r *c08Run) run() []string {
 		// dangling-forward verdict holds, which a restart could mask.
 		if _, since := r.tap.snapshot(); !ok && since >= r.nudgeIdle &&
 			r.nudges >= 3 && !r.rescued && r.flapsSinceRestart > 0 &&
-			r.stuckForward(0) == "" {
+			r.stuckForward(0) == "" && r.stuckResponse(0) == "" {
 
 			r.rescued = true
 			r.flapsSinceRestart = 0
